@@ -180,4 +180,273 @@ theorem add_point_pair_closed {f1 f2 f1' f2' : List Nat} {rest : List (List Nat)
   rw [add_comm] at hs
   exact (symM_add_iff (symM_P u v)).1 hs
 
+/-! ### divide_faces -/
+
+/-- the local positions of the two intersection points of a face of size 5 are at cyclic distance 2
+    (what the disabled `assert(local_point_2_id - local_point_1_id == 3 || … == 2)` states) -/
+def Wf5At (p1 p2 : Nat) : Prop := (p2 = p1 + 2 ∨ p2 = p1 + 3) ∧ p2 ≤ 4
+
+theorem wf5At_cases {p1 p2 : Nat} (h : Wf5At p1 p2) :
+    (p1 = 0 ∧ p2 = 3) ∨ (p1 = 1 ∧ p2 = 4) ∨ (p1 = 0 ∧ p2 = 2) ∨ (p1 = 1 ∧ p2 = 3) ∨ (p1 = 2 ∧ p2 = 4) := by
+  unfold Wf5At at h; omega
+
+/-- the triangles `divide_faces` builds, for every admissible position of the two intersection points
+    (computed from the index tables `Gen.Division.div5CaseA / div5CaseB` read from the source) -/
+theorem divide5_shape (v0 v1 v2 v3 v4 : Nat) :
+    divide5At [v0, v1, v2, v3, v4] 0 3 = some [[v0, v3, v4], [v0, v1, v2], [v0, v2, v3]] ∧
+    divide5At [v0, v1, v2, v3, v4] 1 4 = some [[v1, v4, v0], [v1, v2, v3], [v1, v3, v4]] ∧
+    divide5At [v0, v1, v2, v3, v4] 0 2 = some [[v0, v1, v2], [v4, v0, v2], [v4, v2, v3]] ∧
+    divide5At [v0, v1, v2, v3, v4] 1 3 = some [[v1, v2, v3], [v0, v1, v3], [v0, v3, v4]] ∧
+    divide5At [v0, v1, v2, v3, v4] 2 4 = some [[v2, v3, v4], [v1, v2, v4], [v1, v4, v0]] :=
+  ⟨rfl, rfl, rfl, rfl, rfl⟩
+
+theorem symM_zero : SymM (0 : Multiset HE) := by simp [SymM]
+
+theorem heP_five (v0 v1 v2 v3 v4 : Nat) :
+    heP [v0, v1, v2, v3, v4] = {(v4, v0)} + {(v0, v1)} + {(v1, v2)} + {(v2, v3)} + {(v3, v4)} := by
+  show ((cyc [v0, v1, v2, v3, v4] : List HE) : Multiset HE) = _
+  simp only [cyc, List.getLast?, cycGo, ← Multiset.singleton_add, ← Multiset.cons_coe, Multiset.coe_nil,
+    List.getLast]
+  abel
+
+theorem heP_three (a b c : Nat) : heP [a, b, c] = {(c, a)} + {(a, b)} + {(b, c)} := by
+  show ((cyc [a, b, c] : List HE) : Multiset HE) = _
+  simp only [cyc, List.getLast?, cycGo, ← Multiset.singleton_add, ← Multiset.cons_coe, Multiset.coe_nil,
+    List.getLast]
+  abel
+
+/-- **one cut face**: the three new triangles have the half-edges of the face of size 5 plus two
+    reverse-paired diagonals -/
+theorem divide5_he {v0 v1 v2 v3 v4 p1 p2 : Nat} {ts : List (List Nat)} (hw : Wf5At p1 p2)
+    (h : divide5At [v0, v1, v2, v3, v4] p1 p2 = some ts) :
+    ∃ S, SymM S ∧ hePoly ts = heP [v0, v1, v2, v3, v4] + S := by
+  obtain ⟨s1, s2, s3, s4, s5⟩ := divide5_shape v0 v1 v2 v3 v4
+  rcases wf5At_cases hw with ⟨rfl, rfl⟩ | ⟨rfl, rfl⟩ | ⟨rfl, rfl⟩ | ⟨rfl, rfl⟩ | ⟨rfl, rfl⟩
+  · rw [s1] at h; cases h
+    refine ⟨P v0 v3 + P v0 v2, symM_add (symM_P _ _) (symM_P _ _), ?_⟩
+    simp only [hePoly_cons, hePoly_nil, heP_five, heP_three, P]; abel
+  · rw [s2] at h; cases h
+    refine ⟨P v1 v4 + P v1 v3, symM_add (symM_P _ _) (symM_P _ _), ?_⟩
+    simp only [hePoly_cons, hePoly_nil, heP_five, heP_three, P]; abel
+  · rw [s3] at h; cases h
+    refine ⟨P v0 v2 + P v4 v2, symM_add (symM_P _ _) (symM_P _ _), ?_⟩
+    simp only [hePoly_cons, hePoly_nil, heP_five, heP_three, P]; abel
+  · rw [s4] at h; cases h
+    refine ⟨P v1 v3 + P v0 v3, symM_add (symM_P _ _) (symM_P _ _), ?_⟩
+    simp only [hePoly_cons, hePoly_nil, heP_five, heP_three, P]; abel
+  · rw [s5] at h; cases h
+    refine ⟨P v2 v4 + P v1 v4, symM_add (symM_P _ _) (symM_P _ _), ?_⟩
+    simp only [hePoly_cons, hePoly_nil, heP_five, heP_three, P]; abel
+
+/-- the nodes of the three new triangles are the nodes of the cut face -/
+theorem divide5_nodes {v0 v1 v2 v3 v4 p1 p2 : Nat} {ts : List (List Nat)} (hw : Wf5At p1 p2)
+    (h : divide5At [v0, v1, v2, v3, v4] p1 p2 = some ts) (x : Nat) :
+    x ∈ ts.flatten ↔ x ∈ [v0, v1, v2, v3, v4] := by
+  obtain ⟨s1, s2, s3, s4, s5⟩ := divide5_shape v0 v1 v2 v3 v4
+  rcases wf5At_cases hw with ⟨rfl, rfl⟩ | ⟨rfl, rfl⟩ | ⟨rfl, rfl⟩ | ⟨rfl, rfl⟩ | ⟨rfl, rfl⟩
+  · rw [s1] at h; cases h; simp; tauto
+  · rw [s2] at h; cases h; simp; tauto
+  · rw [s3] at h; cases h; simp; tauto
+  · rw [s4] at h; cases h; simp; tauto
+  · rw [s5] at h; cases h; simp; tauto
+
+theorem divide5_lengths {v0 v1 v2 v3 v4 p1 p2 : Nat} {ts : List (List Nat)} (hw : Wf5At p1 p2)
+    (h : divide5At [v0, v1, v2, v3, v4] p1 p2 = some ts) : ∀ t ∈ ts, t.length = 3 := by
+  obtain ⟨s1, s2, s3, s4, s5⟩ := divide5_shape v0 v1 v2 v3 v4
+  rcases wf5At_cases hw with ⟨rfl, rfl⟩ | ⟨rfl, rfl⟩ | ⟨rfl, rfl⟩ | ⟨rfl, rfl⟩ | ⟨rfl, rfl⟩
+  · rw [s1] at h; cases h; simp
+  · rw [s2] at h; cases h; simp
+  · rw [s3] at h; cases h; simp
+  · rw [s4] at h; cases h; simp
+  · rw [s5] at h; cases h; simp
+
+/-- hypothesis on a face for `divide_faces`: when it has five nodes, its two nodes with id ≥ thr (the intersection
+    points) are found by the two searches of the code and sit at cyclic distance 2 -/
+def Wf5 (thr : Nat) (f : List Nat) : Prop :=
+  f.length = 5 → ∃ p1 p2, findIdx thr f 0 = some p1 ∧ findIdx thr f (p1 + 1) = some p2 ∧ Wf5At p1 p2
+
+theorem list_len5 {f : List Nat} (h : f.length = 5) : ∃ v0 v1 v2 v3 v4, f = [v0, v1, v2, v3, v4] := by
+  match f, h with
+  | [v0, v1, v2, v3, v4], _ => exact ⟨v0, v1, v2, v3, v4, rfl⟩
+
+theorem divide5_ok {thr : Nat} {f : List Nat} {ts : List (List Nat)} (hl : f.length = 5) (hw : Wf5 thr f)
+    (h : divide5 thr f = .ok ts) :
+    ∃ v0 v1 v2 v3 v4 p1 p2, f = [v0, v1, v2, v3, v4] ∧ Wf5At p1 p2 ∧ divide5At [v0, v1, v2, v3, v4] p1 p2 = some ts := by
+  obtain ⟨p1, p2, h1, h2, hw'⟩ := hw hl
+  obtain ⟨v0, v1, v2, v3, v4, rfl⟩ := list_len5 hl
+  refine ⟨v0, v1, v2, v3, v4, p1, p2, rfl, hw', ?_⟩
+  unfold divide5 at h
+  rw [h1] at h; simp only at h
+  rw [h2] at h; simp only at h
+  cases hd : divide5At [v0, v1, v2, v3, v4] p1 p2 with
+  | none => rw [hd] at h; cases h
+  | some ts' => rw [hd] at h; cases h; rfl
+
+/-- **`divide_faces` preserves the surface**: the half-edges of the new face list are those of the old one plus
+    reverse-paired diagonals; in particular the surface is closed after iff it was closed before -/
+theorem divide_faces_he {thr : Nat} : ∀ {F keep add : List (List Nat)}, divideFacesL thr F = .ok (keep, add) →
+    (∀ f ∈ F, Wf5 thr f) → ∃ S, SymM S ∧ hePoly (keep ++ add) = hePoly F + S := by
+  intro F
+  induction F with
+  | nil =>
+    intro keep add h _
+    simp only [divideFacesL] at h; cases h
+    exact ⟨0, symM_zero, by simp [hePoly_nil]⟩
+  | cons f fs ih =>
+    intro keep add h hw
+    have hw' : ∀ g ∈ fs, Wf5 thr g := fun g hg => hw g (List.mem_cons_of_mem _ hg)
+    unfold divideFacesL at h
+    by_cases hl : f.length = 5
+    · have hl' : (f.length == Gen.Division.div5Size) = true := by simp [Gen.Division.div5Size, hl]
+      rw [if_pos hl'] at h
+      cases h5 : divide5 thr f with
+      | error e => rw [h5] at h; cases h
+      | ok ts =>
+        rw [h5] at h; simp only at h
+        cases hr : divideFacesL thr fs with
+        | error e => rw [hr] at h; cases h
+        | ok r =>
+          obtain ⟨k, a⟩ := r
+          rw [hr] at h; simp only at h; cases h
+          obtain ⟨S, hS, hE⟩ := ih hr hw'
+          obtain ⟨v0, v1, v2, v3, v4, p1, p2, rfl, hwf, hd⟩ := divide5_ok hl (hw _ (List.mem_cons_self)) h5
+          obtain ⟨S', hS', hE'⟩ := divide5_he hwf hd
+          refine ⟨S' + S, symM_add hS' hS, ?_⟩
+          rw [hePoly_append] at hE
+          rw [hePoly_append, hePoly_append, hePoly_cons, hE']
+          calc hePoly keep + (heP [v0, v1, v2, v3, v4] + S' + hePoly a)
+              = heP [v0, v1, v2, v3, v4] + S' + (hePoly keep + hePoly a) := by abel
+            _ = heP [v0, v1, v2, v3, v4] + S' + (hePoly fs + S) := by rw [hE]
+            _ = _ := by abel
+    · have hl' : ¬ (f.length == Gen.Division.div5Size) = true := by simp [Gen.Division.div5Size, hl]
+      rw [if_neg hl'] at h
+      cases hr : divideFacesL thr fs with
+      | error e => rw [hr] at h; cases h
+      | ok r =>
+        obtain ⟨k, a⟩ := r
+        rw [hr] at h; simp only at h; cases h
+        obtain ⟨S, hS, hE⟩ := ih hr hw'
+        refine ⟨S, hS, ?_⟩
+        rw [hePoly_append] at hE
+        rw [hePoly_append, hePoly_cons, hePoly_cons, add_assoc, hE, add_assoc]
+
+theorem divide_faces_closed {thr : Nat} {F keep add : List (List Nat)} (h : divideFacesL thr F = .ok (keep, add))
+    (hw : ∀ f ∈ F, Wf5 thr f) : ClosedP (keep ++ add) ↔ ClosedP F := by
+  obtain ⟨S, hS, hE⟩ := divide_faces_he h hw
+  unfold ClosedP
+  rw [hE, add_comm]
+  exact symM_add_iff hS
+
+/-- `divide_faces` neither adds nor drops a node -/
+theorem divide_faces_nodes {thr : Nat} : ∀ {F keep add : List (List Nat)}, divideFacesL thr F = .ok (keep, add) →
+    (∀ f ∈ F, Wf5 thr f) → ∀ x, x ∈ (keep ++ add).flatten ↔ x ∈ F.flatten := by
+  intro F
+  induction F with
+  | nil =>
+    intro keep add h _ x
+    simp only [divideFacesL] at h; cases h; simp
+  | cons f fs ih =>
+    intro keep add h hw x
+    have hw' : ∀ g ∈ fs, Wf5 thr g := fun g hg => hw g (List.mem_cons_of_mem _ hg)
+    unfold divideFacesL at h
+    by_cases hl : f.length = 5
+    · have hl' : (f.length == Gen.Division.div5Size) = true := by simp [Gen.Division.div5Size, hl]
+      rw [if_pos hl'] at h
+      cases h5 : divide5 thr f with
+      | error e => rw [h5] at h; cases h
+      | ok ts =>
+        rw [h5] at h; simp only at h
+        cases hr : divideFacesL thr fs with
+        | error e => rw [hr] at h; cases h
+        | ok r =>
+          obtain ⟨k, a⟩ := r
+          rw [hr] at h; simp only at h; cases h
+          have e1 := ih hr hw' x
+          obtain ⟨v0, v1, v2, v3, v4, p1, p2, rfl, hwf, hd⟩ := divide5_ok hl (hw _ (List.mem_cons_self)) h5
+          have e2 := divide5_nodes hwf hd x
+          simp only [List.flatten_append, List.mem_append, List.flatten_cons] at e1 ⊢
+          rw [e2]; tauto
+    · have hl' : ¬ (f.length == Gen.Division.div5Size) = true := by simp [Gen.Division.div5Size, hl]
+      rw [if_neg hl'] at h
+      cases hr : divideFacesL thr fs with
+      | error e => rw [hr] at h; cases h
+      | ok r =>
+        obtain ⟨k, a⟩ := r
+        rw [hr] at h; simp only at h; cases h
+        have e1 := ih hr hw' x
+        simp only [List.flatten_append, List.mem_append, List.flatten_cons] at e1 ⊢
+        tauto
+
+/-- after `divide_faces` every face that had three or five nodes is a triangle -/
+theorem divide_faces_tris {thr : Nat} : ∀ {F keep add : List (List Nat)}, divideFacesL thr F = .ok (keep, add) →
+    (∀ f ∈ F, Wf5 thr f) → (∀ f ∈ F, f.length = 3 ∨ f.length = 5) → ∀ t ∈ keep ++ add, t.length = 3 := by
+  intro F
+  induction F with
+  | nil =>
+    intro keep add h _ _ t ht
+    simp only [divideFacesL] at h; cases h; simp at ht
+  | cons f fs ih =>
+    intro keep add h hw h35 t ht
+    have hw' : ∀ g ∈ fs, Wf5 thr g := fun g hg => hw g (List.mem_cons_of_mem _ hg)
+    have h35' : ∀ g ∈ fs, g.length = 3 ∨ g.length = 5 := fun g hg => h35 g (List.mem_cons_of_mem _ hg)
+    unfold divideFacesL at h
+    by_cases hl : f.length = 5
+    · have hl' : (f.length == Gen.Division.div5Size) = true := by simp [Gen.Division.div5Size, hl]
+      rw [if_pos hl'] at h
+      cases h5 : divide5 thr f with
+      | error e => rw [h5] at h; cases h
+      | ok ts =>
+        rw [h5] at h; simp only at h
+        cases hr : divideFacesL thr fs with
+        | error e => rw [hr] at h; cases h
+        | ok r =>
+          obtain ⟨k, a⟩ := r
+          rw [hr] at h; simp only at h; cases h
+          obtain ⟨v0, v1, v2, v3, v4, p1, p2, rfl, hwf, hd⟩ := divide5_ok hl (hw _ (List.mem_cons_self)) h5
+          have e2 := divide5_lengths hwf hd
+          have e1 := ih hr hw' h35'
+          simp only [List.mem_append] at ht e1
+          rcases ht with ht | ht | ht
+          · exact e1 t (Or.inl ht)
+          · exact e2 t ht
+          · exact e1 t (Or.inr ht)
+    · have hl' : ¬ (f.length == Gen.Division.div5Size) = true := by simp [Gen.Division.div5Size, hl]
+      rw [if_neg hl'] at h
+      cases hr : divideFacesL thr fs with
+      | error e => rw [hr] at h; cases h
+      | ok r =>
+        obtain ⟨k, a⟩ := r
+        rw [hr] at h; simp only at h; cases h
+        have e1 := ih hr hw' h35'
+        simp only [List.cons_append, List.mem_cons, List.mem_append] at ht e1
+        rcases ht with rfl | ht | ht
+        · rcases h35 t (List.mem_cons_self) with h3 | h5
+          · exact h3
+          · exact absurd h5 hl
+        · exact e1 t (Or.inl ht)
+        · exact e1 t (Or.inr ht)
+
+/-! ### signed volume of a cut triangle -/
+section volume
+variable {R : Type} [Field R]
+
+/-- first branch of `divide_faces` (`local_point_2_id - local_point_1_id == 3`): face `[e, x, y, g, z]` (up to rotation),
+    `e` on the edge `z→x`, `g` on the edge `y→z`; triangles `(e,g,z) (e,x,y) (e,y,g)` -/
+theorem cut_volume_A (x y z : V3 R) (s t : R) :
+    tet6 (z + (x - z) * s) (y + (z - y) * t) z + tet6 (z + (x - z) * s) x y + tet6 (z + (x - z) * s) y (y + (z - y) * t)
+      = tet6 x y z := by
+  simp only [tet6, V3.dot_def, V3.cross_def, V3.add_x, V3.add_y, V3.add_z, V3.sub_x, V3.sub_y, V3.sub_z,
+    V3.smul_x, V3.smul_y, V3.smul_z]
+  ring
+
+/-- else branch of `divide_faces`: face `[e, x, g, y, z]` (up to rotation), `e` on the edge `z→x`, `g` on the edge `x→y`;
+    triangles `(e,x,g) (z,e,g) (z,g,y)` -/
+theorem cut_volume_B (x y z : V3 R) (s t : R) :
+    tet6 (z + (x - z) * s) x (x + (y - x) * t) + tet6 z (z + (x - z) * s) (x + (y - x) * t) + tet6 z (x + (y - x) * t) y
+      = tet6 x y z := by
+  simp only [tet6, V3.dot_def, V3.cross_def, V3.add_x, V3.add_y, V3.add_z, V3.sub_x, V3.sub_y, V3.sub_z,
+    V3.smul_x, V3.smul_y, V3.smul_z]
+  ring
+end volume
+
 end Simu.Division
